@@ -1,4 +1,5 @@
 import sys
+import collections
 
 from datapackage import Package
 
@@ -28,6 +29,9 @@ def unstream(file=sys.stdin):
         descriptor = read()
         yield Package(descriptor)
         for _ in descriptor['resources']:
-            yield res_reader()
+            reader = res_reader()
+            yield reader
+            # skip what a later step left unread: the next resource starts after the separator
+            collections.deque(reader, maxlen=0)
 
     return func
